@@ -12,12 +12,12 @@ cp $DEMO $S/
 D=$(basename $DEMO)
 cd $S
 if [ ! -f /dev/shm/seed-baseline.txt ]; then
-  /venv/bin/python -m pytest -q -p no:cacheprovider --timeout=900 2>&1 | grep -E "^(FAILED|ERROR)" | sort > /dev/shm/seed-baseline.txt
+  /venv/bin/python -m pytest -q -p no:cacheprovider --timeout=900 2>&1 | grep -E "^(FAILED|ERROR) test" | sort > /dev/shm/seed-baseline.txt
 fi
 /venv/bin/python $D > $S/demo_before.log 2>&1; RC0=$?
 patch -p1 -s < $WT/patch.diff || { echo "PATCH FAILED"; exit 9; }
 /venv/bin/python -m pytest -q -p no:cacheprovider --timeout=900 2>&1 > $S/pytest.log
-grep -E "^(FAILED|ERROR)" $S/pytest.log | sort > $S/after.txt; grep -v test_user_throttling /dev/shm/seed-baseline.txt > /dev/shm/seed-baseline.nf; grep -v test_user_throttling $S/after.txt > $S/after.nf
+grep -E "^(FAILED|ERROR) test" $S/pytest.log | sort > $S/after.txt; grep -v test_user_throttling /dev/shm/seed-baseline.txt > /dev/shm/seed-baseline.nf; grep -v test_user_throttling $S/after.txt > $S/after.nf
 SUMMARY=$(tail -1 $S/pytest.log)
 /venv/bin/python $D > $S/demo_after.log 2>&1; RC1=$?
 SAME=no; cmp -s /dev/shm/seed-baseline.nf $S/after.nf && SAME=yes   # (test_user_throttling is flaky in the pinned baseline)
